@@ -5,7 +5,9 @@ Prints one line per patch and the reports of every check that raised an alarm; w
 import glob, json, os, shutil, subprocess, sys, tempfile
 from concurrent.futures import ThreadPoolExecutor
 
-os.chdir("/verif")
+os.chdir(os.path.dirname(os.path.dirname(os.path.abspath(__file__))))     # /verif, or a snapshot of it (vp run): edits made meanwhile do not disturb the pass
+if not os.path.exists("bin/psx"):
+    os.environ.setdefault("PSV_PSX", "/verif/bin/psx")
 sets = sys.argv[1:] or sorted(os.path.basename(d.rstrip("/")) for d in glob.glob("benign/*/"))
 claimed = [c["property_id"] for c in json.load(open("MANIFEST.json"))["checks"]]
 
